@@ -3,6 +3,8 @@ macro_rules! registry {
     ($action:ident, $id:expr, $ctx:expr, $path:expr) => {
         match $id {
             "C01" => dispatch!($action, props::c01::C01, $ctx, $path),
+            "C37" => dispatch!($action, props::c37::C37, $ctx, $path),
+            "C40" => dispatch!($action, props::c40::C40, $ctx, $path),
             _ => {
                 eprintln!("unknown property {}", $id);
                 2
